@@ -35,3 +35,14 @@ def Wrap(section):
     """A second section datatype whose dotted name differs from `wrap` only in letter case (datatype names found
     by import are case-sensitive)."""
     return Wrapped(("Wrap", section))
+
+
+def dcerr(value):
+    """A datatype that itself reads something with ZConfig (think: the name of a second configuration file) and
+    lets the DataConversionError of that inner load - a ValueError like any other - escape: the value it was given
+    is unconvertible, and the inner error's position is not the position of that value."""
+    if value.endswith("!"):
+        import ZConfig
+        raise ZConfig.DataConversionError(ValueError("inner value refused"), "inner text",
+                                          (7, 2, "file:///zcv-inner/rules.conf"))
+    return value
